@@ -1741,6 +1741,8 @@ class Lib(object):
             v = a[0]
             if isinstance(v, SArr):
                 return v.copy()
+            if hasattr(v, 'deepcopy'):
+                return v.deepcopy()
             if isinstance(v, (int, float, str, z3.ExprRef)) or v is None:
                 return v
             raise Unsupported("deepcopy of %r" % (v,))
